@@ -77,10 +77,17 @@ class LambdaTokenTranslator(AbstractTranslator):
         number_condition = f'x{condition_symbol}{condition_value}' if condition_symbol in ('==', '!=') \
             else f'(not isinstance(x, str) and x{condition_symbol}{condition_value})'
 
+        # a criterion that can be read as a date ("2021-06-25", but also "sat" or "jan") is compared as a date with the cells
+        # that hold dates; a text cell is compared as the text it is ("sat" does not select Saturday) and, like under a
+        # number, is never accepted by an ordering criterion
+        date_condition = f'self._parse_date_obj(x){condition_symbol}self._parse_date_obj({condition_value})'
+        text_cells_apart = ' and not isinstance(x, str)'
+        if condition_symbol not in ('==', '!='):
+            date_condition, text_cells_apart = f'(not isinstance(x, str) and {date_condition})', ''
         return context.set_sub_cell(
             token.in_cell, f'lambda x: '
-                           f'self._parse_date_obj(x){condition_symbol}self._parse_date_obj({condition_value}) '
-                           f'if self._parse_date_obj({condition_value}) '
+                           f'{date_condition} '
+                           f'if self._parse_date_obj({condition_value}){text_cells_apart} '
                            f'else str(x).lower(){condition_symbol}str({condition_value}).lower() '
                            f'if isinstance({condition_value}, str) '
                            f'else {number_condition}'
